@@ -62,7 +62,7 @@ func createBuffer() interface{} {
 	return make([]byte, 0, 32*1024)
 }
 
-func pooledIoCopy(dst io.Writer, src io.Reader) {
+func pooledIoCopy(dst io.Writer, src io.Reader) error {
 	buf := bufferPool.Get().([]byte)
 	defer bufferPool.Put(buf)
 
@@ -70,9 +70,11 @@ func pooledIoCopy(dst io.Writer, src io.Reader) {
 	// Due to that we extend buf's length to its capacity here and
 	// ensure it's always non-zero.
 	bufCap := cap(buf)
-	if _, err := io.CopyBuffer(dst, src, buf[0:bufCap:bufCap]); err != nil {
+	_, err := io.CopyBuffer(dst, src, buf[0:bufCap:bufCap])
+	if err != nil {
 		log.Println("[ERROR] failed to copy buffer: ", err)
 	}
+	return err
 }
 
 // onExitFlushLoop is a callback set by tests to detect the state of the
@@ -501,7 +503,15 @@ func (rp *ReverseProxy) ServeHTTP(rw http.ResponseWriter, outreq *http.Request, 
 				fl.Flush()
 			}
 		}
-		rp.copyResponse(rw, res.Body)
+		if err := rp.copyResponse(rw, res.Body); err != nil {
+			// The body broke off (the backend went away in the middle of
+			// it) after the header had been passed on. Finishing the
+			// response regularly would hand the client a truncated body as
+			// if it were the whole one: abort the connection instead, as
+			// net/http's own reverse proxy does.
+			closeBody()
+			panic(http.ErrAbortHandler)
+		}
 
 		// Now close the body to fully populate res.Trailer.
 		closeBody()
@@ -526,7 +536,7 @@ func (rp *ReverseProxy) ServeHTTP(rw http.ResponseWriter, outreq *http.Request, 
 	return nil
 }
 
-func (rp *ReverseProxy) copyResponse(dst io.Writer, src io.Reader) {
+func (rp *ReverseProxy) copyResponse(dst io.Writer, src io.Reader) error {
 	if rp.FlushInterval != 0 {
 		if wf, ok := dst.(writeFlusher); ok {
 			mlw := &maxLatencyWriter{
@@ -539,7 +549,7 @@ func (rp *ReverseProxy) copyResponse(dst io.Writer, src io.Reader) {
 			dst = mlw
 		}
 	}
-	pooledIoCopy(dst, src)
+	return pooledIoCopy(dst, src)
 }
 
 // skip these headers if they already exist.
